@@ -237,6 +237,8 @@ def rule_accessor(ctx):
         ctx.ob("ACCESSOR", "%s() = %s" % (name, "Some(&%s).filter(!is_empty)" % fp if filt else "&" + fp), ok, fn=k, site=fn_site(facts, k), detail=det)
 
 
+THOROUGH_FS = ["pt", "none", "serde"]
+
 RULES = [
     ("SHAPE", rule_shape, 15),
     ("TYPE-GUARD", rule_typeguard, 3),
